@@ -954,6 +954,19 @@ pub fn run(opts: &Opts, out: &mut dyn Write) {
             };
             strays.push((at, to, p, seq_of));
         }
+        // every scenario has PDUs of the receiving side of its transactions reflected back to the receiving daemon while the
+        // receive transaction is (most likely) alive: nothing a receive transaction expects, and nothing that may end it
+        for i in 0..3u64 {
+            let job = rng.below(njobs as u64) as usize;
+            let to = jobs[job].to;
+            let at = match i { 0 => rng.below(60), 1 => 60 + rng.below(200), _ => 260 + rng.below(400) };
+            let p = match rng.below(3) {
+                0 => mk_pdu(Direction::ToSender, jobs[job].mode, 3 - to, 0, to, fin(Condition::NoError, DeliveryCode::Complete)),
+                1 => mk_pdu(Direction::ToSender, jobs[job].mode, 3 - to, 0, to, PDUPayload::Directive(Operations::Ack(PositiveAcknowledgePDU { directive: PDUDirective::EoF, directive_subtype_code: ACKSubDirective::Other, condition: Condition::NoError, transaction_status: TransactionStatus::Active }))),
+                _ => mk_pdu(Direction::ToSender, jobs[job].mode, 3 - to, 0, to, PDUPayload::Directive(Operations::KeepAlive(KeepAlivePDU { progress: 3 }))),
+            };
+            strays.push((at, to, p, Some(job)));
+        }
         // every scenario has a stray that starts a receive transaction which nobody continues, in either mode
         {
             let to = *rng.pick(&[1u16, 2]);
